@@ -192,6 +192,11 @@ def main(argv):
             for j in range(4 * n):
                 cases.append((w, j / (4.0 * n), True, False))
 
+        # offsets within a few ulp of 1 with zero-weight walkers at the end: the last tooth can round onto the total weight
+        for w in ([1.0, 1.0, 1.0, 0.0], [0.0, 3.0, 0.0], [2.0, 0.0], [1.0, 0.5, 0.0], [0.3, 0.0, 0.0], [5.0, 1.0, 0.0, 0.0]):
+            for u in (1 - 2.0 ** -53, 1 - 2.0 ** -52, 1 - 2.0 ** -51, 1 - 2.0 ** -30):
+                cases.append((w, u, False, False))
+
     exprs, todo = [], []
     dist = {"exact": 0, "generic": 0, "generic_near_boundary_skipped_model": 0, "periodic": 0, "N_hist": {}}
     for (w, u, exact, periodic) in cases:
